@@ -10,3 +10,10 @@ func AllocU(size uintptr) unsafe.Pointer {
 	b := make([]byte, size)
 	return unsafe.Pointer(&b[0])
 }
+
+// stand-ins for the runtime's error string type and allocation limit
+type errorString string
+
+func (e errorString) Error() string { return "runtime error: " + string(e) }
+
+const maxAlloc = 1 << 47
